@@ -932,6 +932,9 @@ class NumaNode(Node):
             for nd in self.numa_domains.values():
                 slot = nd.find_slot(rr)
                 if slot:
+                    # lfs and mem are accounted on the node, not the domain
+                    if self.lfs is not None: self.lfs -= rr.lfs
+                    if self.mem is not None: self.mem -= rr.mem
                     return slot
 
 # ------------------------------------------------------------------------------
